@@ -131,7 +131,7 @@ def run(module, cfg, workers=16, simulate=None, depth=None, seed=None, coverage=
     """
     res = TLCResult()
     meta = tempfile.mkdtemp(prefix="tlcmeta_", dir="/dev/shm" if os.path.isdir("/dev/shm") else None)
-    cmd = ["java", "-XX:+UseParallelGC", "-Xmx12g"]
+    cmd = ["java", "-XX:+UseParallelGC", "-Xmx6g"]
     if dfs_queue:
         cmd.append("-Dtlc2.tool.queue.IStateQueue=StateDeque")
     cmd += list(java_opts)
